@@ -166,13 +166,18 @@ Qed.
 Lemma one_cache_per_app : cache_provider_one_per_app = true.
 Proof. reflexivity. Qed.
 
+(* ... and its mutex is held from the lookup in the per-app map to the store: two overlapping first calls for an
+   app get the same storage as well *)
+Lemma provider_lock_held_across_create : cache_provider_lock_across_create = true.
+Proof. reflexivity. Qed.
+
 (* a write whose storage call returned an error marks its keys: what the storage holds under them is not
    known (repaired finding C07-WRITEERR) *)
 Lemma failed_writes_are_marked : cache_write_error_marks = true.
 Proof. reflexivity. Qed.
 
 (* For every history whose operations go through either of two handles that one caching provider handed out
-   for the app, and whose writes may fail after the storage applied nothing, all, or (a batch) the first k
+   for the app - one call after the other or two overlapping first calls (conc) -, and whose writes may fail after the storage applied nothing, all, or (a batch) the first k
    items of them, every output equals the output of the uncached storage under the same fault plan (except
    dont_care); K_inj as above; no operation bypasses the cache (FRaw: the history starts with the cache, over an
    empty storage - see cold_cache_over_ttl_row_refuted).  Stated about the step function with the flags read
@@ -180,11 +185,11 @@ Proof. reflexivity. Qed.
 Theorem cache_transparent_failed_writes_and_handles :
   forall (K : bytes * bytes -> Prop),
   (forall k1 k2, K k1 -> K k2 -> make_key (fst k1) (snd k1) = make_key (fst k2) (snd k2) -> k1 = k2) ->
-  forall xs, Forall (fun x => op_domain K (snd x) /\ snd (fst x) <> FRaw) xs ->
-  transparent_xrun cache_provider_one_per_app cache_big_values_marked cache_key_guard cache_expired_leaves_marker
+  forall conc xs, Forall (fun x => op_domain K (snd x) /\ snd (fst x) <> FRaw) xs ->
+  transparent_xrun (provider_memo conc) cache_big_values_marked cache_key_guard cache_expired_leaves_marker
                    cache_write_error_marks
                    (mkX ([], 0%Z) [] [] 0%Z) xs.
-Proof. exact (fun K Kinj xs => cache_transparent_x_src_proved K Kinj xs (mkX ([], 0%Z) [] [] 0%Z) (CI_init K)). Qed.
+Proof. exact (fun K Kinj conc xs => cache_transparent_x_src_proved K Kinj conc xs (mkX ([], 0%Z) [] [] 0%Z) (CI_init K)). Qed.
 
 (* Both repairs are necessary.  One cache per handle (the code before the repair of C07-HANDLES): the first handle caches "not found", the second writes, the
    first still answers "not found" *)
@@ -196,6 +201,13 @@ Proof.
           (false, FNone, OGet [97%N; 97%N] [1%N])].
   vm_compute. reflexivity.
 Qed.
+
+(* the per-app map without the mutex held across lookup and store: handles taken one after the other share the
+   cache, two overlapping first calls do not (provider_memo computes that from the two flags; the witness above is
+   then the history of the two racing handles) *)
+Example unlocked_provider_map_shares_only_sequentially :
+  (true && (false || negb false) = true /\ true && (false || negb true) = false)%bool.
+Proof. split; reflexivity. Qed.
 
 (* a failed write leaves the cache as it was (the code before the repair of C07-WRITEERR): a Put that times out after its effect, and a
    batch applied in its first item, leave the old value in the cache *)
@@ -223,7 +235,7 @@ Qed.
    does not tell it the expiry; after the expiry the cache keeps serving it, to Get and to TTLGet. *)
 Example cold_cache_over_ttl_row_refuted :
   exists xs, list_eqb sout_eqb
-               (xrun spec_step cache_provider_one_per_app cache_big_values_marked cache_key_guard
+               (xrun spec_step (provider_memo true) cache_big_values_marked cache_key_guard
                      cache_expired_leaves_marker cache_write_error_marks (mkX ([], 0%Z) [] [] 0%Z) xs)
                (under_frun spec_step ([], 0%Z) (map xfop xs)) = false.
 Proof.
@@ -245,7 +257,7 @@ Example failed_writes_and_handles_nonvacuous :
              (false, FErrAfter, OCad [97%N; 97%N] [3%N] [7%N]); (true, FNone, OGet [97%N; 97%N] [3%N])] in
   Forall (fun x => op_domain K (snd x) /\ snd (fst x) <> FRaw) xs /\
   (forall k1 k2, K k1 -> K k2 -> make_key (fst k1) (snd k1) = make_key (fst k2) (snd k2) -> k1 = k2) /\
-  xrun spec_step cache_provider_one_per_app cache_big_values_marked cache_key_guard cache_expired_leaves_marker
+  xrun spec_step (provider_memo true) cache_big_values_marked cache_key_guard cache_expired_leaves_marker
        cache_write_error_marks
        (mkX ([], 0%Z) [] [] 0%Z) xs = under_frun spec_step ([], 0%Z) (map xfop xs) /\
   under_frun spec_step ([], 0%Z) (map xfop xs) =
